@@ -1,7 +1,7 @@
 (** [Model/Main.v] ([run]: the complgen command as a trace of effects) against [Driver.compile]:
     [run_with_case] lists the shapes a run can have -- each with the verdict of [Driver.compile]
     it corresponds to -- and shows there is no other (no [Panic], no [OutOfFuel]) under
-    [fuel_covers].  The theorems of [Props/C06c.v] and [Props/C15b.v] are case analyses on it. *)
+    [fuel_covers].  The theorems of [Props/C06c.v] and [Props/C15c.v] are case analyses on it. *)
 From CG Require Import Base.Prelude Model.Ast Model.Lexer Model.Parser Model.Check Model.Regex.
 From CG Require Import Model.Dfa Model.Subset Model.Minimize Model.Ambiguity Model.Driver Model.Diag.
 From CG Require Import Model.Compiler Model.Main.
